@@ -187,6 +187,28 @@ structure FlushRequest where
   Id : Option U128
   deriving DecidableEq, Repr, Inhabited
 
+/-- the `network_instance` oneof of `spb.GetRequest` -/
+inductive GetNI where
+  | All
+  | Name (Name : String)
+  deriving DecidableEq, Repr, Inhabited
+
+/-- `spb.GetRequest` as `doGet` looks at it (`Aft` by wire number) -/
+structure GetRequestG where
+  NetworkInstance : Option GetNI
+  Aft : Nat
+  deriving DecidableEq, Repr, Inhabited
+
+def AFTType_INVALID : Nat := 0
+def AFTType_ALL : Nat := 1
+def AFTType_IPV4 : Nat := 2
+def AFTType_IPV6 : Nat := 3
+def AFTType_MPLS : Nat := 4
+def AFTType_NEXTHOP : Nat := 5
+def AFTType_NEXTHOP_GROUP : Nat := 6
+def AFTType_MAC : Nat := 7
+def AFTType_POLICY_FORWARDING : Nat := 8
+
 /-- `spb.ModifyRequest` as the receive loop looks at it -/
 structure ModifyRequest where
   Params : Option SessionParameters
@@ -229,6 +251,10 @@ inductive Eff where
   | doModify (id : String)
   | send (r : Option MResp)
   | flush (nis : List String)
+  /-- `errCh <- e` in `doGet`: the Get RPC will end with this error -/
+  | sendErr (e : Option Status)
+  /-- `GetRIB(filter, …)` of one network instance: its entries of the tables in `filter` are streamed -/
+  | getRIB (ni : String) (filter : List Nat)
   | addEntry (ni : String) (op : Option AFTOperation)
   | deleteEntry (ni : String) (op : Option AFTOperation)
   deriving DecidableEq, Repr, Inhabited
